@@ -50,3 +50,11 @@ Proof. vm_compute. reflexivity. Qed.
 (* topoSort started at the top level: the 101st pass still changes something *)
 Lemma ring_rejected : resolve (front_oracle []) ring = RErr ETooManyIter.
 Proof. vm_compute. reflexivity. Qed.
+
+(* ---------- the name the disassembler shows for a native call ------------------------------ *)
+
+Lemma native_clash_shown :
+  func_keys native_clash = [n_natv; [102]] /\
+  name_shown native_clash [n_natv; [102]] 0 = Some [102] /\
+  name_shown native_clash [[102]; n_natv] 0 = Some n_natv.
+Proof. repeat split; vm_compute; reflexivity. Qed.
